@@ -1,11 +1,11 @@
 #!/bin/bash
-# usage: confirm_seed.sh <dir with patch.diff + demo.rs> <name>
+# usage: confirm_seed.sh <dir with patch.diff + demo.rs> <name> [extra cargo flags for the demo, e.g. "--no-default-features --features sse"]
 # Confirms, in a scratch worktree outside /repo and /verif: the patch applies and compiles, the unedited suite passes with it,
 # the demo fails with it and passes without it. Writes <dir>/confirm.log and prints a one-line verdict.
 set -u
-dir="$1"; name="$2"
+dir="$1"; name="$2"; dflags="${3:-}"
 wt=/tmp/confirm-wt-$name
-export CARGO_NET_OFFLINE=true CARGO_TARGET_DIR=/tmp/confirm-target
+export CARGO_NET_OFFLINE=true CARGO_TARGET_DIR=/tmp/confirm-target-$name
 log="$dir/confirm.log"; : > "$log"
 git -C /repo worktree remove --force "$wt" >/dev/null 2>&1
 git -C /repo worktree add -q --detach "$wt" HEAD || { echo "$name: worktree failed"; exit 2; }
@@ -22,12 +22,13 @@ fi
 if [ "$verdict" = ok ]; then
   cp "$dir/demo.rs" tests/zz_demo.rs
   echo "== demo with patch" >>"$log"
-  if cargo test --offline -j 8 --test zz_demo >>"$log" 2>&1; then verdict="demo-passes-with-patch"; fi
+  if cargo test --offline -j 8 $dflags --test zz_demo >>"$log" 2>&1; then verdict="demo-passes-with-patch"; fi
   git checkout -q -- src
   echo "== demo without patch" >>"$log"
-  if ! cargo test --offline -j 8 --test zz_demo >>"$log" 2>&1; then verdict="demo-fails-without-patch"; fi
+  if ! cargo test --offline -j 8 $dflags --test zz_demo >>"$log" 2>&1; then verdict="demo-fails-without-patch"; fi
 fi
 cd /
 git -C /repo worktree remove --force "$wt" >/dev/null 2>&1
+rm -rf "$CARGO_TARGET_DIR"
 echo "$name: $verdict"
 echo "VERDICT $verdict" >>"$log"
